@@ -55,7 +55,8 @@ import tempfile
 from lib.core import Ctx, REPO
 
 ID = "C14"
-LEAN_TARGETS = ["AiuVerif.Props.C14"]
+NEEDS_GEN = True
+LEAN_TARGETS = ["AiuVerif.Props.C14", "AiuVerif.Props.C14Inventory"]
 THEOREMS = [
     "AiuVerif.C14.output_independent_of_hidden",
     "AiuVerif.C14.runProc_eq_spec",
@@ -72,6 +73,7 @@ THEOREMS = [
     "AiuVerif.C14.preserved_state_invisible",
     "AiuVerif.C14.option_defaults_invisible",
     "AiuVerif.C14.option_defaults_in_place_leak",
+    "AiuVerif.C14.hidden_inventory",   # process-level mutable state of the package == reviewed list (translator)
 ]
 RULE = ("stage level: histories of 1..4 runs (exhaustive two-run histories over a small graph set + random) on the real "
         "EventProcessor/Engine/barrier singleton/job registry, runs may abort after n events, with/without -I, with/without "
